@@ -342,6 +342,12 @@ EXTRA = [b'x=1 -- c\ny=2\n', b'x=1 // c\ny=2\n', b'if (a) b=1 -- c\nc=2\n', b'if
          b'x=1 --[[c]] y=2\n', b'-- t\n-- a\n-- third\nx=1\n', b'x = a - - b\n', b'x = a - -1\n', b'x = 1 .. 2\n',
          b'x = a .. ...\n', b'x = a .. .5\n', b't[ [[k]] ] = 1\n', b'x = 1 .. a\n', b'x = a and 1 or 2\n',
          b'x = 0x1f e = 1\n', b'x = 1 e1 = 2\n', b'f = 1 x = f\n', b'x = a.b.c d = 1\n', b'x = a ... \n' ]
+# header comments (the first two are kept verbatim) whose text ends like something else, directly followed by code
+for _h in (b'-- by [[zep]]', b'// see t[tabs[2]]', b'-- a]]', b'-- a]=]', b'--[[t]]', b'--[=[t]=]', b'-- x --', b'// y //', b'-- q\\',
+           b'-- "open', b"-- it's", b'--[[a\nb]]', b'--'):
+    for _second in (b'', b'-- a\n', _h + b'\n'):
+        for _code in (b'x=1\ny=x\n', b'if (a) b=1\nc=2\n', b'?x\n', b'x=1'):
+            EXTRA.append(_h + b'\n' + _second + _code)
 
 
 def shards(tier, seed):
